@@ -664,6 +664,25 @@ impl OrderBook {
     }
 }
 
+#[cfg(feature = "verif")]
+impl JuraV1 {
+    /// Read-only snapshot for the verification harness: resting book in time priority as
+    /// (order id, order, attempted_execution), pending buffer, next order id, trade log.
+    #[allow(clippy::type_complexity)]
+    pub fn verif_snapshot(&self) -> (Vec<(u64, Order, bool)>, Vec<Order>, u64, Vec<Fill>) {
+        (
+            self.orderbook
+                .inner
+                .iter()
+                .map(|o| (o.order_id, o.order.clone(), o.attempted_execution))
+                .collect(),
+            self.order_buffer.clone(),
+            self.orderbook.last_inserted,
+            self.trade_log.clone(),
+        )
+    }
+}
+
 #[cfg(test)]
 mod tests {
     use super::{JuraV1, Order};
